@@ -231,22 +231,22 @@ Section Gov.
 
     (** updateRoleRelatedProposalInfo: the not-closed proposals are read ONCE (snapshot), then
         AvailableElectorateNum +-1 of the snapshot copy is written back one by one *)
+    Definition cascade_step (x : N) (inc : bool) (acc : res state) (ip : nat * option proposal) : res state :=
+      match acc with
+      | Fail c => Fail c
+      | Ok s =>
+        match snd ip with
+        | None => Ok s
+        | Some p =>
+          if existsb (fun e : N * N => fst e =? x) (h_elect (p_hdr p)) then
+            if negb (d_avail_voted cfg) && existsb (fun b : N * bool => fst b =? x) (p_ballots p) then Ok s
+            else update_avail s (fst ip)
+                   (if inc then wrap64 (p_avail p + 1) else wrap64 (p_avail p + W64 - 1))
+          else Ok s
+        end
+      end.
     Definition cascade st (x : N) (inc : bool) : res state :=
-      let snap := map (fun i => (i, get_prop st i)) (s_proposed st ++ s_paused st) in
-      fold_left (fun acc (ip : nat * option proposal) =>
-        match acc with
-        | Fail c => Fail c
-        | Ok s =>
-          match snd ip with
-          | None => Ok s
-          | Some p =>
-            if existsb (fun e : N * N => fst e =? x) (h_elect (p_hdr p)) then
-              if negb (d_avail_voted cfg) && existsb (fun b : N * bool => fst b =? x) (p_ballots p) then Ok s
-              else update_avail s (fst ip)
-                     (if inc then wrap64 (p_avail p + 1) else wrap64 (p_avail p + W64 - 1))
-            else Ok s
-          end
-        end) snap (Ok st).
+      fold_left (cascade_step x inc) (map (fun i => (i, get_prop st i)) (s_proposed st ++ s_paused st)) (Ok st).
 
     (** the Manage method of the three manager contracts *)
     Definition manage st (m : N) (ev next last : string) (obj : N)
